@@ -179,9 +179,9 @@ fn server_received_a_message(
                     info!("Promotion: A new host has been promoted. Reconnecting to new host");
                     cmd.add(move |world: &mut World| {
                         info!("Promotion: Creating a new client connection to new host...");
-                        world
-                            .resource_mut::<SyncTrackerRes>()
-                            .host_promotion_in_progress = true;
+                        let mut tracker = world.resource_mut::<SyncTrackerRes>();
+                        tracker.host_promotion_in_progress = true;
+                        tracker.closing_server_after_promotion = true;
                         // a RenetClient that was disconnected once (kicked in an earlier hand-over) never
                         // connects again: start over with a new one
                         world.insert_resource(RenetClient::new(bevy_renet::renet::ConnectionConfig::default()));
